@@ -2,14 +2,18 @@
 C25 — refetch references resolve to the refetch query generated for that field at that position.
 
 Compiler side, abstractly (`IsoVerif.Ops.Book`, Model/Core/Refetch.lean): refetch paths are keys of a
-`BTreeMap`; a client field's reader numbers its refetchable selections by the position of their
-UNTRANSFORMED path in the field's own map; the parent hands down, for the field's paths TRANSFORMED by
-the argument substitution `f` and then sorted, their positions in its own map; the runtime composes
-the two lists.  `selectedKey parent f child σ` is the key of the query the runtime ends up with.
+`BTreeMap` (keys abstracted to their rank); a client field's reader numbers its refetchable selections
+by the position of their path — relative to the field, in the field's own variables — in the field's
+own map (`childIndex`); the parent hands down `usedRefetchQueries`: for the child's paths IN THAT SAME
+ORDER, each transformed by the argument substitution `f`, its position in the parent's map; the
+runtime composes the two lists (`readResolverFieldData`).  `selectedKey parent f child σ` is the key
+of the query the runtime ends up with for the child's selection `σ`.
 
-The full statement is false on the unchanged tree (F18, open finding `refetch-order-after-substitution`,
-replayed on the real compiler and the real read.ts from corpus/C25/witnesses.txt); it holds when the
-substitution preserves the order of the child's keys.
+The statement was false on the unchanged tree (F18): the parent transformed the child's paths FIRST
+and sorted the results afterwards, through a set (`usedRefetchQueriesOld`), which is right only when the
+substitution preserves the order of the child's keys (and keeps them distinct).  Both counterexamples
+were confirmed on the real compiler and the real read.ts (corpus/C25/witnesses.txt, findings.txt).
+Repaired by 34522e4; the statement now holds for every substitution.
 -/
 import IsoVerif.Lemmas.OpsRefetch
 
@@ -18,52 +22,55 @@ open IsoVerif.Ops.Book
 
 /-- the property: for EVERY argument substitution the composed indices select the query generated
 for the transformed key of the selection -/
-def C25_statement : Prop :=
+theorem C25_resolves (parentPaths : List Nat) (f : Nat → Nat) (childPaths : List Nat) (σ : Nat)
+    (hσ : σ ∈ childPaths) (hsub : ∀ k ∈ childPaths, f k ∈ parentPaths) :
+    selectedKey parentPaths f childPaths σ = some (f σ) :=
+  selectedKey_correct parentPaths f childPaths σ hσ hsub
+
+/-- the hypotheses are satisfiable by a substitution that reverses the order AND merges keys -/
+example : selectedKey [9, 7, 5, 6, 3] (fun k => 7 - k / 2 * 2) [2, 0, 3, 1, 2] 3 = some 5 := by decide
+
+/-- the same statement about the bookkeeping before the repair -/
+def C25_statement_before_repair : Prop :=
   ∀ (parentPaths : List Nat) (f : Nat → Nat) (childPaths : List Nat) (σ : Nat),
     σ ∈ childPaths → (∀ k ∈ childPaths, f k ∈ parentPaths) →
-    selectedKey parentPaths f childPaths σ = some (f σ)
+    selectedKeyOld parentPaths f childPaths σ = some (f σ)
 
 /-- F18: two keys whose order the substitution swaps (`$a ↦ "zzz"`, `$b ↦ "aaa"`): the selection
-numbered 0 in the child resolves to the OTHER key's query -/
-theorem C25_witness_reorder : ¬ C25_statement := by
-  intro h
-  exact witness_not_expected (h [0, 1] (fun k => 1 - k) [0, 1] 0 (by decide) (by decide))
+numbered 0 in the child resolved to the OTHER key's query; it resolves to its own now -/
+theorem C25_fixed_reorder :
+    ¬ C25_statement_before_repair ∧ selectedKey [0, 1] (fun k => 1 - k) [0, 1] 0 = some 1 :=
+  ⟨fun h => witnessOld_not_expected (h [0, 1] (fun k => 1 - k) [0, 1] 0 (by decide) (by decide)),
+   selectedKey_repaired_reorder⟩
 
-/-- sorting commutes with an order-preserving transformation: the list the parent hands down is the
-child's own numbering, transformed -/
-theorem C25_sort_commutes (f : Nat → Nat) (childPaths : List Nat) (h : OrderPreserving f childPaths) :
-    sortKeys (childPaths.map f) = (sortKeys childPaths).map f :=
-  sortKeys_map_of_orderPreserving f childPaths h
+/-- the variant: two keys of the child that BECOME EQUAL under the substitution (`items(only: $n)`
+with `n = 100` next to `items(only: 100)`): the parent handed down one index for both, the child's
+second index was out of range (read.ts throws); both resolve to the one query now -/
+theorem C25_fixed_keys_merge :
+    selectedKeyOld [5] (fun _ => 5) [0, 1] 1 = none ∧ selectedKey [5] (fun _ => 5) [0, 1] 1 = some 5 :=
+  ⟨selectedKeyOld_witness_merge, selectedKey_repaired_merge⟩
 
-/-- what holds: when the substitution keeps the (strict) order of the child's keys, composing the
-index lists selects the query generated for that selection at that position -/
-theorem C25_partial (parentPaths : List Nat) (f : Nat → Nat) (childPaths : List Nat) (σ : Nat)
+/-- what held before the repair: when the substitution keeps the (strict) order of the child's keys,
+the old composition was right too — and agreed with the repaired one -/
+theorem C25_before_repair_partial (parentPaths : List Nat) (f : Nat → Nat) (childPaths : List Nat) (σ : Nat)
     (hσ : σ ∈ childPaths) (hop : OrderPreserving f childPaths) (hnd : childPaths.Nodup)
     (hsub : ∀ k ∈ childPaths, f k ∈ parentPaths) :
-    selectedKey parentPaths f childPaths σ = some (f σ) :=
-  selectedKey_of_orderPreserving parentPaths f childPaths σ hσ hop hnd hsub
-
-/-- a second way to leave the envelope: two keys of the child that BECOME EQUAL under the substitution
-(`items(only: $n)` with `n = 100` next to `items(only: 100)`): the parent hands down one index for
-both, the child's second index is out of range (read.ts throws) -/
-theorem C25_witness_keys_merge : ¬ C25_statement := by
-  intro h
-  have := h [5] (fun _ => 5) [0, 1] 1 (by decide) (by decide)
-  rw [selectedKey_witness_merge] at this
-  cases this
+    selectedKeyOld parentPaths f childPaths σ = some (f σ) :=
+  selectedKeyOld_of_orderPreserving parentPaths f childPaths σ hσ hop hnd hsub
 
 example : OrderPreserving (fun k => k + 5) [0, 1, 2] := by
   intro a ha b hb hab
   simp only at *
   omega
 
-example : selectedKey [9, 7, 5, 6, 3] (fun k => k + 5) [0, 1, 2] 1 = some 6 := by decide
+/-- sorting commutes with an order-preserving transformation -/
+theorem C25_sort_commutes (f : Nat → Nat) (childPaths : List Nat) (h : OrderPreserving f childPaths) :
+    sortKeys (childPaths.map f) = (sortKeys childPaths).map f :=
+  sortKeys_map_of_orderPreserving f childPaths h
 
-/-- the witness is outside the envelope of `C25_partial` -/
-theorem C25_witness_not_order_preserving : ¬ OrderPreserving (fun k => 1 - k) [0, 1] :=
-  witness_not_orderPreserving
-
-theorem C25_witness_merge_not_order_preserving : ¬ OrderPreserving (fun _ => 5) [0, 1] :=
-  witness_merge_not_orderPreserving
+/-- both witnesses were outside that envelope -/
+theorem C25_witnesses_not_order_preserving :
+    ¬ OrderPreserving (fun k => 1 - k) [0, 1] ∧ ¬ OrderPreserving (fun _ => 5) [0, 1] :=
+  ⟨witness_not_orderPreserving, witness_merge_not_orderPreserving⟩
 
 end IsoVerif.Props.C25
